@@ -186,6 +186,56 @@ func ammodecCalls(p *packages.Package, fds ...*ast.FuncDecl) []ammodecCall {
 	return out
 }
 
+// ammodecClosure: fds plus every function / method of the same package they call, transitively (a Scanner configured in
+// a helper such as `newLineScanner(file)` is still the decoder's Scanner).
+func ammodecClosure(p *packages.Package, fds []*ast.FuncDecl) []*ast.FuncDecl {
+	byObj := map[types.Object]*ast.FuncDecl{}
+	for _, f := range p.Syntax {
+		for _, d := range f.Decls {
+			if fd, ok := d.(*ast.FuncDecl); ok && fd.Body != nil {
+				if o := p.TypesInfo.Defs[fd.Name]; o != nil {
+					byObj[o] = fd
+				}
+			}
+		}
+	}
+	seen := map[*ast.FuncDecl]bool{}
+	var out []*ast.FuncDecl
+	var visit func(fd *ast.FuncDecl)
+	visit = func(fd *ast.FuncDecl) {
+		if fd == nil || seen[fd] {
+			return
+		}
+		seen[fd] = true
+		out = append(out, fd)
+		ast.Inspect(fd.Body, func(n ast.Node) bool {
+			call, ok := n.(*ast.CallExpr)
+			if !ok {
+				return true
+			}
+			var id *ast.Ident
+			switch f := call.Fun.(type) {
+			case *ast.Ident:
+				id = f
+			case *ast.SelectorExpr:
+				id = f.Sel
+			}
+			if id != nil {
+				if callee, ok := byObj[p.TypesInfo.Uses[id]]; ok && len(out) < 64 {
+					// only helpers that take or return a bufio object, or belong to the same receiver, matter; following all
+					// same-package callees is simpler and still small
+					visit(callee)
+				}
+			}
+			return true
+		})
+	}
+	for _, fd := range fds {
+		visit(fd)
+	}
+	return out
+}
+
 func ammodecLeanStrList(xs []string) string {
 	q := make([]string, len(xs))
 	for i, s := range xs {
@@ -214,7 +264,7 @@ func ammodecStrFuncs(calls []ammodecCall) string {
 // construct: the functions in which the bufio object is created or re-created (looked at for Buffer / Split / sizes).
 func (x *ammodecX) reader(p *packages.Package, what string, scanLimit int64, fds []*ast.FuncDecl, construct []*ast.FuncDecl) string {
 	methods := map[string][]ammodecCall{}
-	for _, c := range ammodecCalls(p, append(append([]*ast.FuncDecl{}, fds...), construct...)...) {
+	for _, c := range ammodecCalls(p, ammodecClosure(p, append(append([]*ast.FuncDecl{}, fds...), construct...))...) {
 		if strings.HasPrefix(c.name, "Reader.") || strings.HasPrefix(c.name, "Scanner.") {
 			methods[c.name] = append(methods[c.name], c)
 		}
